@@ -67,7 +67,7 @@ func Unsupported(res *core.Result) bool {
 		return false
 	}
 	m := strings.ToLower(res.Err.Error())
-	return strings.Contains(m, "unsupported") || strings.Contains(m, "not supported") ||
+	return strings.Contains(m, "unsupported") || strings.Contains(m, "not supported") || strings.Contains(m, "does not support") ||
 		strings.Contains(m, "syntax error") || strings.Contains(m, "not yet implemented") ||
 		strings.Contains(m, "not implemented")
 }
